@@ -558,6 +558,49 @@ class RefinedChains(object):
         return 'ok', vs, 2
 
 
+class ShoutedNames(object):
+    name = 'types-named-like-base-types-in-capitals'
+    describe = ('a user type whose name is the upper-case spelling of an SMI base type (TIMETICKS, COUNTER32 ... - ordinary '
+                'identifiers: only the mixed-case words are reserved), used by an object: the object keeps ITS type')
+    NAMES = ['TIMETICKS', 'COUNTER32', 'GAUGE32', 'UNSIGNED32', 'INTEGER32', 'IPADDRESS', 'OPAQUE', 'COUNTER64', 'NETWORKADDRESS']
+
+    def blocks(self, tier):
+        return [{}]
+
+    def cases(self, block, tier):
+        for n in self.NAMES:
+            for tc in (0, 1):
+                yield {'name': n, 'tc': tc}
+
+    def run_case(self, case):
+        n = case['name']
+        syn = ('simple', 'INTEGER', ('range', [(0, 100)]))
+        td = {'k': 'tc', 'name': n, 'display': None, 'status': 'current', 'descr': 'd', 'syntax': syn} if case['tc'] \
+            else {'k': 'type', 'name': n, 'syntax': syn}
+        mod = refir.finish_module({'name': 'TEST-MIB', 'decls': ctx() + [td, obj('userObj', ('ref', n), 1)]})
+        texts, out = compile_both([mod], ['TEST-MIB'])
+        sig = 'C05|shouted-type-name|%s' % n
+        vs = []
+        res, written = out['json']
+        if res.get('TEST-MIB') != 'compiled':
+            vs.append(('%s|json|not-compiled' % sig, '%r\n%s' % (getattr(res.get('TEST-MIB'), 'error', None), texts['TEST-MIB'])))
+        else:
+            got = json.loads(written['TEST-MIB']).get('userObj', {}).get('syntax', {})
+            if got.get('type') != n:
+                vs.append(('%s|json|parent-type' % sig, 'object syntax %r, written %s\n%s' % (got, n, texts['TEST-MIB'])))
+        res, written = out['pysnmp']
+        if res.get('TEST-MIB') != 'compiled':
+            vs.append(('%s|pysnmp|not-compiled' % sig, '%r\n%s' % (getattr(res.get('TEST-MIB'), 'error', None), texts['TEST-MIB'])))
+        else:
+            ns, err = pysnmp_rec.run_module(written['TEST-MIB'], pysnmp_rec.RecBuilder())
+            o = ns.get('userObj') if ns else None
+            scls = pysnmp_rec.syntax_of(o) if isinstance(o, pysnmp_rec.Node) else None
+            if err or not isinstance(scls, type) or n not in scls.chain():
+                vs.append(('%s|pysnmp|parent-type' % sig, 'error %r, syntax class chain %r, written %s\n%s' % (
+                    err, scls.chain() if isinstance(scls, type) and hasattr(scls, 'chain') else scls, n, texts['TEST-MIB'])))
+        return 'x', vs, 2
+
+
 class SameNamedTypes(object):
     name = 'same-named-types'
     describe = ('TEST-MIB and REMOTE-MIB each define a type called Mode with DIFFERENT base types, each with an object of that type '
@@ -620,4 +663,4 @@ class SameNamedTypes(object):
         return repr(outcome), vs, 2
 
 
-FAMILIES = [Refinements(), Defaults(), SameNamedTypes(), RefinedChains()]
+FAMILIES = [Refinements(), Defaults(), SameNamedTypes(), RefinedChains(), ShoutedNames()]
